@@ -305,6 +305,8 @@ int main(int argc, char** argv)
     char** a       = tk + 2; /* arguments */
     if (!strcmp(op, "BARRIER")) {
       MPI_Barrier(MPI_COMM_WORLD);
+    } else if (!strcmp(op, "DELAY")) { /* simulated sleep (usleep is intercepted by SMPI) */
+      usleep(atoi(a[0]));
     } else if (!strcmp(op, "FENCE")) {
       CK(MPI_Win_fence(atoi(a[1]), W[atoi(a[0])].win));
     } else if (!strcmp(op, "LOCK")) {
